@@ -1,6 +1,7 @@
 package props
 
 import (
+	"go/token"
 	"go/types"
 	"sort"
 	"strings"
@@ -217,6 +218,30 @@ func (c *Ctx) Roles() *Roles {
 					continue
 				}
 				v := st.Val
+				// the closure built in a local first (`onpub := func..; svc.onpub = onpub`)
+				for i := 0; i < 3; i++ {
+					if ct, ok := v.(*ssa.ChangeType); ok {
+						v = ct.X
+						continue
+					}
+					if u, ok := v.(*ssa.UnOp); ok && u.Op == token.MUL {
+						if al, ok := u.X.(*ssa.Alloc); ok {
+							var only ssa.Value
+							nst := 0
+							for _, ref := range *al.Referrers() {
+								if s2, ok := ref.(*ssa.Store); ok && s2.Addr == ssa.Value(al) {
+									only = s2.Val
+									nst++
+								}
+							}
+							if nst == 1 {
+								v = only
+								continue
+							}
+						}
+					}
+					break
+				}
 				if ct, ok := v.(*ssa.ChangeType); ok {
 					v = ct.X
 				}
